@@ -241,6 +241,16 @@ def d_names(t):
     t[7]["element"] = "H"
 
 
+def d_legacy_names(t):
+    """Pre-2008 PDB atom names: read as written (O5* stays O5*, O1P stays O1P)."""
+    for a in t:
+        a["name"] = a["name"].replace("'", "*")
+    t[6]["name"] = "O1P"
+    t[6]["element"] = "O"
+    t[9]["name"] = "C5M"
+    t[9]["element"] = "C"
+
+
 def d_noocc(t):
     t[4]["occ"] = None
 
@@ -266,6 +276,7 @@ def deviations():
     d += [d_models_zero_based, d_models_out_of_order, d_boundary_twin]
     # occupancies that differ in the second decimal only (after seed C08-l)
     d += [d_altloc("0.33", "0.34"), d_repeat("0.45", "0.48"), d_close("0.48", "0.45")]
+    d += [d_legacy_names]
     return d
 
 
